@@ -8,6 +8,8 @@ package c06
 import (
 	"fmt"
 	"image/color"
+	"math"
+	"strconv"
 	"sync"
 
 	"github.com/EliCDavis/polyform/formats/gltf"
@@ -17,6 +19,8 @@ import (
 	"github.com/EliCDavis/vector/vector2"
 	"github.com/EliCDavis/vector/vector3"
 	"github.com/EliCDavis/vector/vector4"
+
+	"verif/harness/core"
 )
 
 type ModelSpec struct {
@@ -76,6 +80,31 @@ var meshMenu = map[string]meshDef{
 	"B65537": {id: "B65537", seed: 8, n: 65537, idx: bigIdx(65537), attrs: []string{modeling.PositionAttribute, modeling.TexCoordAttribute}},
 }
 
+// meshDefOf resolves a mesh id: a menu entry, or a value-ladder mesh "V<r>" — a welded two-triangle
+// mesh (and "W<r>", a point cloud) whose Position, Normal and TexCoord components are consecutive
+// rungs of the float32 ladder starting at rung r (scene.go: attrVal).
+func meshDefOf(id string) (meshDef, bool) {
+	if d, ok := meshMenu[id]; ok {
+		return d, true
+	}
+	if len(id) > 1 && (id[0] == 'V' || id[0] == 'W') {
+		r, err := strconv.Atoi(id[1:])
+		if err != nil || r < 0 {
+			return meshDef{}, false
+		}
+		d := meshDef{id: id, seed: ladderSeed + r, n: 4, idx: quadQ, attrs: []string{modeling.PositionAttribute, modeling.NormalAttribute, modeling.TexCoordAttribute}}
+		if id[0] == 'W' {
+			d.point, d.idx, d.attrs = true, pntP, []string{modeling.PositionAttribute, modeling.TexCoordAttribute}
+		}
+		return d, true
+	}
+	return meshDef{}, false
+}
+
+const ladderSeed = 1 << 20
+
+var f32Ladder = core.Float32Ladder()
+
 var smallMeshes = []string{"A", "A'", "Q", "O", "P", "E"}
 var bigMeshes = []string{"B65535", "B65536", "B65537"}
 
@@ -118,6 +147,9 @@ func attrVal(seed int, attr string, i, c int) float64 {
 	}
 	if attr == modeling.JointAttribute {
 		return float64((i*4 + c*7 + seed + h) % 200)
+	}
+	if seed >= ladderSeed {
+		return float64(math.Float32frombits(f32Ladder[(seed-ladderSeed+4*i+c+h)%len(f32Ladder)]))
 	}
 	v := float64(h%5) + float64(seed)*0.37 + float64(i)*1.5 + float64(c)*0.25 + 0.1
 	if (i+c+h)%2 == 1 {
@@ -312,7 +344,8 @@ func (p *pools) meshPtr(id string) *modeling.Mesh {
 		bigInit()
 		m = bigPtr[id]
 	} else {
-		m = buildMesh(meshMenu[id])
+		d, _ := meshDefOf(id)
+		m = buildMesh(d)
 	}
 	p.mesh[id] = m
 	return m
